@@ -4,6 +4,7 @@ import (
 	"bytes"
 	"fmt"
 	"go/ast"
+	"go/parser"
 	"go/printer"
 	"go/token"
 	"go/types"
@@ -23,6 +24,108 @@ func (e *Env) stmtText(s ast.Stmt) string {
 	return t
 }
 
+// stmtShape abstracts a statement to its kind and the names of the functions it calls, in source order.
+// Two statements of the same shape differ only in operands, variable names and the like.
+func stmtShape(s ast.Node) string {
+	kind := fmt.Sprintf("%T", s)
+	var calls []string
+	ast.Inspect(s, func(n ast.Node) bool {
+		if _, ok := n.(*ast.FuncLit); ok {
+			return false
+		}
+		if c, ok := n.(*ast.CallExpr); ok {
+			switch f := ast.Unparen(c.Fun).(type) {
+			case *ast.SelectorExpr:
+				calls = append(calls, f.Sel.Name)
+			case *ast.Ident:
+				if !predeclaredType[f.Name] { // conversions are not calls
+					calls = append(calls, f.Name)
+				}
+			case *ast.ArrayType, *ast.StarExpr, *ast.MapType, *ast.InterfaceType:
+				// conversion to a composite type
+			default:
+				calls = append(calls, "?")
+			}
+		}
+		return true
+	})
+	if len(calls) == 0 {
+		return ""
+	}
+	return kind + ":" + strings.Join(calls, ",")
+}
+
+var predeclaredType = map[string]bool{"string": true, "byte": true, "rune": true, "int": true, "int8": true, "int16": true, "int32": true, "int64": true,
+	"uint": true, "uint8": true, "uint16": true, "uint32": true, "uint64": true, "uintptr": true, "float32": true, "float64": true, "complex64": true, "complex128": true, "bool": true, "error": true}
+
+// resolveAnchors makes anchored clauses robust against harmless edits of the statement they name: when the
+// exact text of an anchor occurs nowhere in the function, but exactly one statement has the same shape (same
+// kind of statement, same called functions in the same order) and no other anchor names it, the clause is
+// attached to that statement (reported in the notes of the run). Anything else stays a structure violation.
+func (e *Env) resolveAnchors(body *ast.BlockStmt) {
+	if e.fc == nil || body == nil {
+		return
+	}
+	texts := map[string]int{}
+	shapes := map[string][]string{}
+	ast.Inspect(body, func(n ast.Node) bool {
+		st, ok := n.(ast.Stmt)
+		if !ok {
+			return true
+		}
+		switch st.(type) {
+		case *ast.BlockStmt, *ast.LabeledStmt, *ast.CaseClause, *ast.CommClause:
+			return true
+		}
+		t := e.stmtText(st)
+		texts[t]++
+		switch st.(type) {
+		case *ast.IfStmt, *ast.ForStmt, *ast.RangeStmt, *ast.SwitchStmt, *ast.TypeSwitchStmt:
+			return true // compound statements are anchored by their header only
+		}
+		if sh := stmtShape(st); sh != "" {
+			shapes[sh] = append(shapes[sh], t)
+		}
+		return true
+	})
+	anchorTexts := map[string]bool{}
+	for _, cl := range e.fc.Clauses {
+		cl.Resolved = ""
+		if cl.Anchor != "" {
+			anchorTexts[cl.Anchor] = true
+		}
+	}
+	for _, cl := range e.fc.Clauses {
+		if cl.Anchor == "" || strings.HasPrefix(cl.Anchor, "$") || texts[cl.Anchor] > 0 || cl.Occ != 0 {
+			continue
+		}
+		f, err := parser.ParseFile(token.NewFileSet(), "", "package p\nfunc _() {\n"+cl.Anchor+"\n}", 0)
+		if err != nil || len(f.Decls) != 1 {
+			continue
+		}
+		fd, ok := f.Decls[0].(*ast.FuncDecl)
+		if !ok || fd.Body == nil || len(fd.Body.List) != 1 {
+			continue
+		}
+		sh := stmtShape(fd.Body.List[0])
+		if sh == "" {
+			continue
+		}
+		var cands []string
+		seen := map[string]bool{}
+		for _, t := range shapes[sh] {
+			if !seen[t] && !anchorTexts[t] && texts[t] == 1 {
+				seen[t] = true
+				cands = append(cands, t)
+			}
+		}
+		if len(cands) == 1 {
+			cl.Resolved = cands[0]
+			e.w.trustedNote(fmt.Sprintf("anchor drift in %s: the clause anchored at %q was attached to %q (same statement shape, unique)", e.short, cl.Anchor, cands[0]))
+		}
+	}
+}
+
 // anchored runs the ghost clauses anchored before/after statement s.
 func (e *Env) anchored(s ast.Stmt, before bool) {
 	if e.inline > 0 {
@@ -40,7 +143,7 @@ func (e *Env) anchored(s ast.Stmt, before bool) {
 			ic.anchors[text] = occ
 		}
 		for _, cl := range ic.fc.Clauses {
-			if cl.Kind != "ghost" || cl.Anchor == "" || cl.Before != before || cl.Anchor != text || (cl.Occ != 0 && cl.Occ != occ) {
+			if cl.Kind != "ghost" || cl.Anchor == "" || cl.Before != before || (cl.Anchor != text && cl.Resolved != text) || (cl.Occ != 0 && cl.Occ != occ) {
 				continue
 			}
 			e.ghostClause(cl)
@@ -60,7 +163,7 @@ func (e *Env) anchored(s ast.Stmt, before bool) {
 		e.anchors[text] = occ
 	}
 	for _, cl := range e.fc.Clauses {
-		if cl.Anchor == "" || cl.Before != before || cl.Anchor != text {
+		if cl.Anchor == "" || cl.Before != before || (cl.Anchor != text && cl.Resolved != text) {
 			continue
 		}
 		if cl.Occ != 0 && cl.Occ != occ {
@@ -971,7 +1074,6 @@ func (e *Env) returnStmt(s *ast.ReturnStmt) {
 	e.dead()
 }
 
-
 func allLit(ts ...*Term) bool {
 	for _, t := range ts {
 		if t == nil || t.Op != "lit" {
@@ -1046,7 +1148,6 @@ func countAssignments(info *types.Info, body *ast.BlockStmt) map[types.Object]in
 	})
 	return out
 }
-
 
 func cloneArmedMap(m map[*deferSite]bool) map[*deferSite]bool {
 	out := map[*deferSite]bool{}
